@@ -1158,6 +1158,12 @@ def finish(pid, tier, t0, spec, totals, fams, problems, samples, known, extra_co
 def replay(path):
     d = json.load(open(path))
     pr = d["problem"]
+    if d.get("property") in ("C09", "C10", "C11", "C12", "C16"):
+        # these checks are deterministic for a fixed seed: the violation is reproduced by running the check again
+        # (evidence files are left alone)
+        print(json.dumps({k: pr[k] for k in ("kind", "sig", "detail") if k in pr}, indent=1)[:3000])
+        os.environ["VERIF_NO_EVIDENCE"] = "1"
+        return run_property(d["property"], os.environ.get("VERIF_TIER", "quick"))
     if "prog" not in pr:
         print(json.dumps(pr, indent=1))
         return 2
